@@ -1,7 +1,11 @@
 import TinsModel.Props.C14
 #print axioms Tins.Props.C14.matcher_noFault
 #print axioms Tins.Props.C14.walkExt_fuel_irrelevant
+#print axioms Tins.Props.C14.skipExts_fuel_irrelevant
 #print axioms Tins.Props.C14.model_refines_spec
+#print axioms Tins.Props.C14.mirrored_reply_accepted
+#print axioms Tins.Props.C14.unreachable_quoting_accepted
+#print axioms Tins.Props.C14.mirror_and_stranger_exclusive
 #print axioms Tins.Props.C14.mirror_accepted
 #print axioms Tins.Props.C14.stranger_rejected
 #print axioms Tins.Props.C14.mirror_is_not_a_stranger
